@@ -150,6 +150,16 @@ def construction(I):
         return False, "variance criterion accepted for a MetricEvaluator"
     except TypeError:
         pass
+    # criterion names are matched ignoring case and surrounding blanks - also by the refusal
+    for spelled in ("Variance", "VARIANCE", " variance ", "variance\t"):
+        try:
+            EarlyStopping(1, 0.1, I["patience"], me, "m", criterion=spelled)
+            return False, "variance criterion spelled %r accepted for a MetricEvaluator" % spelled
+        except TypeError:
+            pass
+    for spelled in ("Absolute", " RELATIVE "):
+        if EarlyStopping(1, 0.1, I["patience"], me, "m", criterion=spelled).criterion != spelled.strip().lower():
+            return False, "criterion %r not normalised" % spelled
     try:
         with warnings.catch_warnings():
             warnings.simplefilter("ignore")
